@@ -533,6 +533,56 @@ def declared_dests(add_arguments_node) -> Set[str]:
     return out
 
 
+def run_tuple_protocol(ctx, prop: str):
+    """.97  a list that is filled with tuples of named values
+    (`L.append((old, new))`) and consumed by unpacking (`for old, new in L`,
+    also in a nested function): when producer and consumer use the same
+    names, they use them in the same order."""
+    p = ctx.program
+    files = anchor_files(prop) + EXTRA_FILES.get(prop.upper(), [])
+    mods = [m for m in p.modules.values() if m.relpath in files]
+    pid = prop.upper()
+    ctx.rule('R-%s.97' % pid)
+    n, hit = 0, False
+    for m in mods:
+        for f in m.all_funcs():
+            if f.outer is not None:
+                continue
+            prod = {}
+            for x in ast.walk(f.node):
+                if isinstance(x, ast.Call) and \
+                        isinstance(x.func, ast.Attribute) and \
+                        x.func.attr == 'append' and \
+                        isinstance(x.func.value, ast.Name) and x.args and \
+                        isinstance(x.args[0], ast.Tuple) and \
+                        all(isinstance(e, ast.Name)
+                            for e in x.args[0].elts):
+                    prod.setdefault(x.func.value.id, []).append(
+                        ([e.id for e in x.args[0].elts], x))
+            for x in ast.walk(f.node):
+                if isinstance(x, (ast.For, ast.comprehension)) and \
+                        isinstance(x.iter, ast.Name) and x.iter.id in prod \
+                        and isinstance(x.target, (ast.Tuple, ast.List)) and \
+                        all(isinstance(e, ast.Name) for e in x.target.elts):
+                    cons = [e.id for e in x.target.elts]
+                    for pr, call in prod[x.iter.id]:
+                        n += 1
+                        if set(pr) == set(cons) and pr != cons:
+                            hit = True
+                            ctx.finding(f, call, '%s appends (%s) to %s but '
+                                        'the consumer unpacks (%s): the '
+                                        'values arrive under each other\'s '
+                                        'names' % (
+                                            f.qualname, ', '.join(pr),
+                                            x.iter.id, ', '.join(cons)),
+                                        key='tuple-fields-transposed:%s' %
+                                        x.iter.id)
+    ctx.counts['R-%s.97 tuple producer/consumer pairs' % pid] = n
+    if n and not hit:
+        ctx.ok((mods[0].name, '*'), '%d tuple producer/consumer pairs agree '
+               'on the field order' % n)
+
+
 def run_options(ctx, prop: str):
     p = ctx.program
     files = anchor_files(prop)
